@@ -501,8 +501,11 @@ def judge_roundtrip(c, r):
     bad = stream_state_failure(c, r)
     if bad:
         return bad
+    form_txt = describe_form(c["form"])
+    if c.get("carrier") in JOBLIB_FILE_CARRIERS:     # the given form is not used: the file object decides
+        form_txt = "0, written through the open file object" if c["carrier"].endswith("_w") else "the file object's codec"
     what = "load(dump(%s, protocol=%s, compress=%s) via %s)" % (
-        r.get("obj_repr", "x"), c.get("proto"), describe_form(c["form"]), c.get("carrier") or c["target"]["k"])
+        r.get("obj_repr", "x"), c.get("proto"), form_txt, c.get("carrier") or c["target"]["k"])
     if "dump_raise" in r:
         return what + ": dump raised " + r["dump_raise"]
     if "load_raise" in r:
